@@ -2514,9 +2514,10 @@ func (m *Machine) processHandlers(e *Event) (Result, bool) {
 		switch {
 		case timeout:
 			return Canceled, handlerCalled
-		case strings.HasSuffix(e.Name, SuffixState):
-		case strings.HasSuffix(e.Name, SuffixEnd):
-			// returns from State and End handlers are ignored
+		case tx.latestHandlerIsFinal:
+			// returns from final handlers (State, End) are ignored; decided by the
+			// phase, not by the name: the negotiation handlers of a state called
+			// e.g. FooEnd (AFooEnd, FooEndFooEnd) end with a final suffix too
 		default:
 			if !ret {
 				return Canceled, handlerCalled
